@@ -4,6 +4,7 @@ import (
 	"bytes"
 	"encoding/hex"
 	"fmt"
+	"math"
 	"math/rand"
 	"regexp"
 	"sort"
@@ -157,7 +158,7 @@ func mutateExprs(r *rand.Rand, ss []*S) {
 
 func checkC02(c *Ctx) {
 	c.Level = "translation_validation"
-	c.Rule = "programs = generated MiniGo programs of every profile on every choice path found by TLC, type-preserving mutations of them (operator within its class, constants nudged, && <-> ||), the jump-placement family (sampled), the fusion-boundary family (every fusible expression / statement shape x every chunk-end context x all branch outcomes), hand-written seed programs, and every In string of the repository's test tables; each run with the optimizer off and on; distinct_nontrivial = distinct (program, input) pairs whose optimized code differs from the unoptimized code"
+	c.Rule = "programs = generated MiniGo programs of every profile on every choice path found by TLC, type-preserving mutations of them (operator within its class, constants nudged, && <-> ||), the jump-placement family (sampled), the fusion-boundary family (every fusible expression / statement shape x every chunk-end context x all branch outcomes), hand-written seed programs, every function of the C04 operator tables (integers and float64) on boundary operands, and every In string of the repository's test tables; each run with the optimizer off and on; distinct_nontrivial = distinct (program, input) pairs whose optimized code differs from the unoptimized code"
 	c.Assumptions = []string{"the unoptimized run of the same tree is the oracle (the property's own definition)", "VerifLoad/VerifEval mirror Load/Eval except for the optimizer flag (a drift between them is reported as exit 2)", "columns of error positions legitimately differ between the modes and are not compared"}
 	r := rand.New(rand.NewSource(c.Seed))
 	var lines []map[string]any
@@ -230,6 +231,95 @@ func checkC02(c *Ctx) {
 		off, on := evalBoth(in)
 		add(hashKey("eval|"+in), off, on, map[string]any{"eval_input": in})
 		c.Evaluations += 2
+	}
+	// (4) the C04 operator tables (integers and float64): every function called with sample operands in both modes
+	{
+		load := func(src string, opt bool) *goat.VM {
+			vm := goat.New(goat.WithStdout(&bytes.Buffer{}))
+			if err := vm.VerifLoad(mapFS(map[string]string{"main/main.go": src}), "main", opt, nil); err != nil {
+				fatalf("operator table package does not load (optimize=%v): %v", opt, firstLine(err.Error()))
+			}
+			return vm
+		}
+		callAll := func(vm *goat.VM, name string, argSets [][]goat.Value) c02Obs {
+			o := c02Obs{Out: "", Vals: []string{}, Ok: true}
+			for _, args := range argSets {
+				goat.VerifSetBudget(100000)
+				rets, err := vm.Call("main."+name, 1, args...)
+				goat.VerifSetBudget(-1)
+				if err != nil {
+					o.Vals = append(o.Vals, "error")
+					continue
+				}
+				o.Vals = append(o.Vals, vm.VerifTypeOf(rets[0])+":"+rets[0].String())
+			}
+			return o
+		}
+		sets := func(arity int, vals []goat.Value) [][]goat.Value {
+			switch arity {
+			case 0:
+				return [][]goat.Value{{}}
+			case 1:
+				var out [][]goat.Value
+				for _, a := range vals {
+					out = append(out, []goat.Value{a})
+				}
+				return out
+			}
+			var out [][]goat.Value
+			for _, a := range vals {
+				for _, b := range vals {
+					out = append(out, []goat.Value{a, b})
+				}
+			}
+			return out
+		}
+		ifns := c04Functions(c, r)
+		isrc := c04Source(ifns)
+		ion, ioff := load(isrc, true), load(isrc, false)
+		step := c.pick(3, 1)
+		for i := 0; i < len(ifns); i += step {
+			f := ifns[i]
+			lo, hi := typeRange(f.T)
+			var vals []goat.Value
+			for _, x := range []int64{lo, lo + 1, 0, 1, 3, hi - 1, hi} {
+				vals = append(vals, mkValue(f.T, x))
+			}
+			as := sets(f.Arity, vals)
+			add(hashKey("c04|"+f.Src), callAll(ioff, f.Name, as), callAll(ion, f.Name, as), map[string]any{"function": f.Src, "operands": "boundary values of " + f.T})
+			c.Evaluations += int64(2 * len(as))
+		}
+		ffns := c04fFunctions(c, r)
+		var sb strings.Builder
+		sb.WriteString("package main\n\ntype S_f struct {\n\tPad int\n\tF float64\n}\n\nvar G_f float64\n\n")
+		for _, f := range ffns {
+			sb.WriteString(f.Src + "\n\n")
+		}
+		fon, foff := load(sb.String(), true), load(sb.String(), false)
+		var fvals []goat.Value
+		for _, x := range []float64{0, math.Copysign(0, -1), 1, -2.5, 0.125, 1024, math.Inf(1), math.Inf(-1), math.NaN()} {
+			fvals = append(fvals, goat.Float64(x))
+		}
+		for _, f := range ffns {
+			vals := fvals
+			if f.From != "" {
+				vals = nil
+				lo, hi := typeRange(f.From)
+				for _, x := range []int64{lo, 0, 1, 7, hi} {
+					vals = append(vals, mkValue(f.From, x))
+				}
+			}
+			if f.Op == "toint" {
+				vals = nil
+				for _, x := range []float64{0, 1, 2.5, 100.75, 0.125} {
+					vals = append(vals, goat.Float64(x))
+				}
+			}
+			as := sets(f.Arity, vals)
+			add(hashKey("c04f|"+f.Src), callAll(foff, f.Name, as), callAll(fon, f.Name, as), map[string]any{"function": f.Src, "operands": "0, -0, 1, -2.5, 0.125, 1024, +Inf, -Inf, NaN"})
+			c.Evaluations += int64(2 * len(as))
+		}
+		c.Extra["operator_table_functions_paired"] = len(ifns)/step + len(ffns)
 	}
 	// drift check: Load(optimizer on) must equal VerifLoad(on) on a seed program
 	{
